@@ -53,6 +53,31 @@ func isDefinition(x map[string]any) bool {
 
 // LoadCorpus finds every flow definition under the repository's testdata/specdata.
 func LoadCorpus(repo string) []*CorpusDef {
+	// a check may pre-extract the corpus once for the many short-lived processes it spawns
+	cache := os.Getenv("GFSIM_CORPUS_CACHE")
+	if cache != "" {
+		if b, err := os.ReadFile(cache); err == nil {
+			var out []*CorpusDef
+			if json.Unmarshal(b, &out) == nil && len(out) > 0 {
+				return out
+			}
+		}
+	}
+	out := loadCorpus(repo)
+	if cache != "" {
+		slim := make([]*CorpusDef, len(out))
+		for i, d := range out {
+			slim[i] = &CorpusDef{ID: d.ID, File: d.File, Bytes: d.Bytes}
+		}
+		if b, err := json.Marshal(slim); err == nil {
+			os.WriteFile(cache+".tmp", b, 0644)
+			os.Rename(cache+".tmp", cache)
+		}
+	}
+	return out
+}
+
+func loadCorpus(repo string) []*CorpusDef {
 	var files []string
 	filepath.Walk(repo, func(p string, info os.FileInfo, err error) error {
 		if err != nil || info.IsDir() {
